@@ -90,6 +90,12 @@ func (partyIDs IDSlice) WriteTo(w io.Writer) (int64, error) {
 	}
 	nAll := int64(4)
 	for _, id := range partyIDs {
+		// each id is preceded by its length: without it ("a","bc") and ("ab","c") would be written identically
+		err = binary.Write(w, binary.BigEndian, uint64(len(id)))
+		nAll += 8
+		if err != nil {
+			return nAll, err
+		}
 		n, err = w.Write([]byte(id))
 		nAll += int64(n)
 		if err != nil {
